@@ -32,6 +32,18 @@ def parse_write(bib, text, budget=None):
     for b in lib.failed_blocks:
         if b.error is None or not isinstance(b.raw, str) or b.raw == "":
             return {"clause": "failed_carry", "detail": f"{type(b).__name__} error={b.error!r} raw={b.raw!r}"}
+    # "syntax errors surface ... as failed blocks STORED IN THE LIBRARY": what the scanner reported is still there after the
+    # default stack ran (raw text by raw text)
+    try:
+        scanned = [b.raw for b in bib.splitter.Splitter(text).split().failed_blocks]
+    except BaseException:  # noqa
+        scanned = []
+    have = [b.raw for b in lib.failed_blocks]
+    for raw in scanned:
+        if raw in have:
+            have.remove(raw)
+        else:
+            return {"clause": "failed_carry", "detail": f"the failed block the scanner reported for {raw[:60]!r} is not in the library parse_string returned"}
     try:
         if budget:
             with splitpipe.time_limit(budget):
